@@ -883,8 +883,6 @@ def invocation_histories(o, tier, gen, demo, dld, demos_nest):
                          "table is handed out writable and the cache is only cleared by start_page)",
                    ["LoadDataTableMutableWithinPage"], cls="invocation-history:loadData")
 
-    obj_dev_listed = any(e.get("property") == PID and e.get("deviation") == OBJ_DEV for e in common.load_known())
-    pending_obj = {"cases": 0}
 
     def known_obj(origin, hist, rendering, i, got, exp_i):
         """Invocation #i shows what the as-is model with ContentLanguageObjectShared predicts (and the ideal does not)."""
@@ -953,13 +951,10 @@ def invocation_histories(o, tier, gen, demo, dld, demos_nest):
             break
 
     # ---- nested programs ----
-    pending = {"cases": 0}
     untrusted = set()
-    # NestedInvokeSharesLoadedModules: reproduced on the unchanged tree in round 7, repair proposed
-    # (proposed_fixes/C09-nested-invoke-own-module-instances.diff).  As long as known_findings.json has no entry for
-    # it (neither "finding" nor "fixed") the steps the as-is model explains by it are only counted (candidate
-    # finding); with an entry they go through Outcome.classify: KNOWN-FINDING while listed as open, VIOLATION once fixed.
-    nest_dev_listed = any(e.get("property") == PID and e.get("deviation") == NEST_DEV for e in common.load_known())
+    # NestedInvokeSharesLoadedModules: reproduced on the unchanged tree in round 7 and listed in known_findings.json
+    # (repair proposed: proposed_fixes/C09-nested-invoke-own-module-instances.diff).  The steps the as-is model explains
+    # by it go through Outcome.classify: KNOWN-FINDING while listed as open, VIOLATION otherwise.
 
     def leaf_text(x):
         return nest_render([x])[1:-1]
@@ -1056,13 +1051,6 @@ def invocation_histories(o, tier, gen, demo, dld, demos_nest):
         "G_cases": len(ncases), "G_runs": len(nitems), "V_programs": len(vn),
         "cases_where_as_is_differs": sum(1 for c in ncases if c["asis"] != c["out"]),
         "cases_where_NestedSharesCallerEnv_differs": sum(1 for c in ncases if c["shared"] != c["asis"])}
-    if not nest_dev_listed:
-        o.extra["candidate_finding"] = dict(pending, deviation=NEST_DEV, status="not listed in known_findings.json: the steps the as-is "
-                                            "model explains by this deviation are counted here and not reported")
-        if pending["cases"]:
-            print(f"CANDIDATE-FINDING: property={PID} {NEST_DEV} (not listed in known_findings.json, exit code unaffected): "
-                  f"{pending['cases']} step(s) of nested programs show exactly what the as-is model predicts, "
-                  f"e.g. {pending['witness']['invocation']} -> {pending['witness']['got']} (demanded {pending['witness']['model']})")
     o.sample({"nest_case": ncases[len(ncases) // 2]["nest"], "text": nest_text(ncases[len(ncases) // 2]["nest"]["prog"]),
               "demanded": nest_expected(ncases[len(ncases) // 2]["out"])})
     verdicts = {c["i"] - 1: c for c in rv.cases}
@@ -1100,14 +1088,6 @@ def invocation_histories(o, tier, gen, demo, dld, demos_nest):
     o.extra["handed_out_objects"] = {"constructors": OBJ_CTORS, "G_histories": sum(1 for c in cases if any(k in OBJ_KINDS for k in c["hist"])),
                                      "histories_where_as_is_differs": sum(1 for c in cases if c["asis"] and any(k in OBJ_KINDS for k in c["hist"])),
                                      "histories_where_HandedOutObjectsMemoised_differs": sum(1 for c in cases if c.get("objmemo"))}
-    if not obj_dev_listed:
-        o.extra["candidate_finding_" + OBJ_DEV] = dict(pending_obj, deviation=OBJ_DEV, status="not listed in known_findings.json: the "
-                                                       "invocations the as-is model explains by this deviation are counted here and not reported")
-        if pending_obj["cases"]:
-            w = pending_obj["witness"]
-            print(f"CANDIDATE-FINDING: property={PID} {OBJ_DEV} (not listed in known_findings.json, exit code unaffected): "
-                  f"{pending_obj['cases']} invocation(s) show exactly what the as-is model predicts, e.g. history {w['history']} -> "
-                  f"{w['all_outputs']} (demanded {w['model']} for the last one)")
     o.extra["invocation_histories"] = {"G_histories": len(cases), "G_runs": len(items), "renderings": list(INV_RENDERINGS),
                                        "V_histories": len(vh), "kinds": len(kinds) + 1,
                                        "histories_where_EnvKeptOnAbort_differs": sum(1 for c in cases if c["kept"])}
